@@ -901,7 +901,7 @@ theorem write_none (σ : State) (tid : Nat) (es : List Effect) :
     σ.write D0 tid es =
       { σ with rows := applyEffects D0 (σ.snapOf tid) σ.rows es,
                txns := σ.txns.modify tid (fun t => { t with ws := t.ws ++ es.map Effect.rid }) } := by
-  simp [State.write, D0, Defects.none]
+  simp [State.write, D0, Defects.none, Defects.usesIndex]
 
 theorem modify_ws_fields {txns : List Txn} {tid i : Nat} {w : List Rid} {t' : Txn}
     (h : (txns.modify tid (fun t => { t with ws := t.ws ++ w }))[i]? = some t') :
@@ -987,10 +987,10 @@ theorem insFrom_cons_ins (c j : Nat) (t : String) (vals : List Val) (p : Plan) (
     InsFrom c j (p.cons (Effect.ins (c, j) t vals)).effs := by
   simp [Plan.cons, InsFrom, h]
 
-theorem insFrom_planIns (ts : TableSchema) (c : Nat) : ∀ (rows : List (List Val)) (v : View) (j : Nat),
-    InsFrom c j (planIns ts c v rows j).effs
-  | [], v, j => by simp [planIns, InsFrom]
-  | r :: rs, v, j => by
+theorem insFrom_planIns (ts : TableSchema) (c : Nat) : ∀ (rows : List (List Val)) (pb : Option Probe) (v : View) (j : Nat),
+    InsFrom c j (planIns ts c pb v rows j).effs
+  | [], pb, v, j => by simp [planIns, InsFrom]
+  | r :: rs, pb, v, j => by
     unfold planIns
     split
     · simp [InsFrom]
@@ -998,13 +998,13 @@ theorem insFrom_planIns (ts : TableSchema) (c : Nat) : ∀ (rows : List (List Va
       · simp [InsFrom]
       · split
         · simp [InsFrom]
-        · exact insFrom_cons_ins c j _ _ _ (insFrom_planIns ts c rs _ (j + 1))
+        · exact insFrom_cons_ins c j _ _ _ (insFrom_planIns ts c rs _ _ (j + 1))
 
 theorem insFrom_planUpd (ts : TableSchema) (ci : Nat) (col : Col) (add : Bool) (x : Val)
-    (p : Option (Nat × CmpOp × Val)) (c : Nat) : ∀ (rs : List ARow) (v : View) (j : Nat),
-    InsFrom c j (planUpd ts ci col add x p v rs).effs
-  | [], v, j => by simp [planUpd, InsFrom]
-  | r :: rs, v, j => by
+    (p : Option (Nat × CmpOp × Val)) (c : Nat) : ∀ (rs : List ARow) (pb : Option Probe) (v : View) (j : Nat),
+    InsFrom c j (planUpd ts ci col add x p pb v rs).effs
+  | [], pb, v, j => by simp [planUpd, InsFrom]
+  | r :: rs, pb, v, j => by
     unfold planUpd
     split
     · split
@@ -1013,9 +1013,11 @@ theorem insFrom_planUpd (ts : TableSchema) (ci : Nat) (col : Col) (add : Bool) (
         · simp [InsFrom]
         · split
           · simp [InsFrom]
-          · simp only [Plan.cons, InsFrom]
-            exact insFrom_planUpd ts ci col add x p c rs _ j
-    · exact insFrom_planUpd ts ci col add x p c rs v j
+          · split
+            · simp [InsFrom]
+            · simp only [Plan.cons, InsFrom]
+              exact insFrom_planUpd ts ci col add x p c rs _ _ j
+    · exact insFrom_planUpd ts ci col add x p c rs pb v j
 
 theorem insFrom_planDel (t : String) (p : Option (Nat × CmpOp × Val)) (c : Nat) : ∀ (rs : List ARow) (j : Nat),
     InsFrom c j (planDel t p rs).effs
@@ -1027,8 +1029,8 @@ theorem insFrom_planDel (t : String) (p : Option (Nat × CmpOp × Val)) (c : Nat
       exact insFrom_planDel t p c rs j
     · exact insFrom_planDel t p c rs j
 
-theorem insFrom_planStmt (cat : Catalog) (c j : Nat) (v : View) (st : Stmt) :
-    InsFrom c j (planStmt cat c j v st).effs := by
+theorem insFrom_planStmt (pb : Option Probe) (cat : Catalog) (c j : Nat) (v : View) (st : Stmt) :
+    InsFrom c j (planStmt pb cat c j v st).effs := by
   cases st with
   | sel t p =>
     simp only [planStmt]
@@ -1041,7 +1043,7 @@ theorem insFrom_planStmt (cat : Catalog) (c j : Nat) (v : View) (st : Stmt) :
     · simp [InsFrom]
     · split
       · simp [InsFrom]
-      · exact insFrom_planIns _ c rows v j
+      · exact insFrom_planIns _ c rows pb v j
   | upd t col add x p =>
     simp only [planStmt]
     split
@@ -1050,7 +1052,7 @@ theorem insFrom_planStmt (cat : Catalog) (c j : Nat) (v : View) (st : Stmt) :
       · simp [InsFrom]
       · split
         · simp [InsFrom]
-        · exact insFrom_planUpd _ _ _ _ _ _ c v v j
+        · exact insFrom_planUpd _ _ _ _ _ _ c v pb v j
   | del t p =>
     simp only [planStmt]
     split
@@ -1384,15 +1386,52 @@ theorem commit_core (σ : State) (α : Spec.State) (j : Nat) (h : Core σ α j) 
     · rintro tid' a' hne ⟨t', h1, h2, h3, h4, h5⟩
       exact ⟨t', setStatus_get_other h1 (fun e => hne e.symm), h2, h3, h4, h5⟩
 
+theorem spec_commit_false (α : Spec.State) (a : Spec.ATxn) (h : (α.commitTxn a).2 = false) :
+    (α.commitTxn a).1 = α := by
+  unfold Spec.State.commitTxn at h ⊢
+  split
+  · rfl
+  · rename_i hc; simp [hc] at h
+
+/-- commit with the constraint re-check -/
+theorem commitC_core (σ : State) (α : Spec.State) (j : Nat) (h : Core σ α j) (tid : Nat) (a : Spec.ATxn)
+    (hr : TxRel σ tid a) :
+    (σ.commitC D0 tid).2 = (α.commitC a).2 ∧ Core (σ.commitC D0 tid).1 (α.commitC a).1 j ∧
+    (∀ tid' a', tid' ≠ tid → TxRel σ tid' a' → TxRel (σ.commitC D0 tid).1 tid' a') := by
+  obtain ⟨hok, c1, pres⟩ := commit_core σ α j h tid a hr
+  obtain ⟨c0, pres0⟩ := abort_core σ α j h tid a hr
+  unfold State.commitC Spec.State.commitC
+  rw [hok]
+  cases h2 : (α.commitTxn a).2 with
+  | false =>
+    simp only [Bool.false_eq_true, if_false]
+    rw [spec_commit_false α a h2] at c1
+    exact ⟨trivial, c1, pres⟩
+  | true =>
+    simp only [if_true]
+    have hch : constraintsHold σ.cat (view D0 ((σ.commitTxn tid).1.freshSnap D0) (σ.commitTxn tid).1.rows) =
+        constraintsHold α.cat (α.commitTxn a).1.committed := by
+      rw [c1.committed, h.cat]
+    have hflag : D0.uniqueNotRecheckedAtCommit = false := rfl
+    rw [hflag, hch]
+    cases h3 : constraintsHold α.cat (α.commitTxn a).1.committed with
+    | false =>
+      simp only [Bool.not_false, Bool.and_self, if_true]
+      exact ⟨trivial, c0, pres0⟩
+    | true =>
+      simp only [Bool.not_false, Bool.not_true, Bool.and_false, Bool.false_eq_true, if_false]
+      exact ⟨trivial, c1, pres⟩
+
 /-! #### statements -/
 
 theorem stmt_none (σ : State) (tid j : Nat) (st : Stmt) :
     σ.stmt D0 tid j st =
-      if (planStmt σ.cat σ.clock j (view D0 (σ.snapOf tid) σ.rows) st).out.isErr
-      then (σ, planStmt σ.cat σ.clock j (view D0 (σ.snapOf tid) σ.rows) st)
-      else (σ.write D0 tid (planStmt σ.cat σ.clock j (view D0 (σ.snapOf tid) σ.rows) st).effs,
-            planStmt σ.cat σ.clock j (view D0 (σ.snapOf tid) σ.rows) st) := by
-  simp only [State.stmt, D0, Defects.none, Bool.not_false, Bool.and_true]
+      if (planStmt none σ.cat σ.clock j (view D0 (σ.snapOf tid) σ.rows) st).out.isErr
+      then (σ, planStmt none σ.cat σ.clock j (view D0 (σ.snapOf tid) σ.rows) st)
+      else (σ.write D0 tid (planStmt none σ.cat σ.clock j (view D0 (σ.snapOf tid) σ.rows) st).effs,
+            planStmt none σ.cat σ.clock j (view D0 (σ.snapOf tid) σ.rows) st) := by
+  simp only [State.stmt, D0, Defects.none, Defects.usesIndex, Bool.not_false, Bool.and_true, Bool.or_self,
+    Bool.false_eq_true, if_false]
   split <;> rename_i h <;> simp [h]
 
 theorem write_core (σ : State) (α : Spec.State) (j : Nat) (h : Core σ α j) (tid : Nat) (a : Spec.ATxn)
@@ -1458,17 +1497,17 @@ theorem stmt_core (σ : State) (α : Spec.State) (j : Nat) (h : Core σ α j) (t
     (∀ tid' a', tid' ≠ tid → TxRel σ tid' a' → TxRel (σ.stmt D0 tid j st).1 tid' a') := by
   have hr0 := hr
   obtain ⟨t, ht, hact, hview, hws, hst⟩ := hr
-  have hplan : planStmt σ.cat σ.clock j (view D0 (σ.snapOf tid) σ.rows) st = planStmt α.cat α.clock j a.view st := by
+  have hplan : planStmt none σ.cat σ.clock j (view D0 (σ.snapOf tid) σ.rows) st = planStmt none α.cat α.clock j a.view st := by
     rw [snapOf_eq σ tid t ht, hview, h.cat, h.clock]
   rw [stmt_none]
   unfold Spec.stmt
   rw [hplan]
-  by_cases he : (planStmt α.cat α.clock j a.view st).out.isErr = true
+  by_cases he : (planStmt none α.cat α.clock j a.view st).out.isErr = true
   · simp only [if_pos he]
     exact ⟨trivial, ⟨h.cinv, SInv.mono σ j _ h.sinv, h.cat, h.clock, h.committed, h.log⟩, hr0, fun _ _ _ h' => h'⟩
   · simp only [if_neg he]
-    have hi : InsFrom σ.clock j (planStmt α.cat α.clock j a.view st).effs := by
-      rw [← h.cat, ← h.clock]; exact insFrom_planStmt _ _ _ _ _
+    have hi : InsFrom σ.clock j (planStmt none α.cat α.clock j a.view st).effs := by
+      rw [← h.cat, ← h.clock]; exact insFrom_planStmt _ _ _ _ _ _
     obtain ⟨h1, h2, h3⟩ := write_core σ α j h tid a hr0 _ hi
     exact ⟨trivial, h1, h2, h3⟩
 
@@ -1671,5 +1710,21 @@ theorem batch_sessions (tid : Nat) : ∀ (sts : List Stmt) (σ : State) (j : Nat
     | err e => dsimp only; exact stmt_sessions σ tid j st
     | okN n => dsimp only; rw [batch_sessions tid sts]; exact stmt_sessions σ tid j st
     | rows rs => dsimp only; rw [batch_sessions tid sts]; exact stmt_sessions σ tid j st
+
+theorem commitC_sessions (σ : State) (tid : Nat) : (σ.commitC D0 tid).1.sessions = σ.sessions := by
+  unfold State.commitC
+  split
+  · split
+    · rfl
+    · exact commitTxn_sessions σ tid
+  · exact commitTxn_sessions σ tid
+
+theorem spec_commitC_sessions (α : Spec.State) (a : Spec.ATxn) : (α.commitC a).1.sessions = α.sessions := by
+  unfold Spec.State.commitC
+  split
+  · split
+    · rfl
+    · unfold Spec.State.commitTxn; split <;> rfl
+  · rfl
 
 end AxVerif.Db
